@@ -35,6 +35,7 @@ from flask.views import MethodView  # type: ignore
 
 from dashlive.drm.system import DrmSystem
 from dashlive.server import models
+from dashlive.server.events.factory import EventFactory
 from dashlive.server.routes import routes, Route
 from dashlive.server.options.container import OptionsContainer
 from dashlive.server.options.repository import OptionsRepository
@@ -119,6 +120,9 @@ class RequestHandlerBase(MethodView):
     # used as a time span (one hundred years)
     MAX_TIME_SPAN: int = 100 * 366 * 24 * 3600
 
+    # largest number of events in one manifest
+    MAX_EVENT_COUNT: int = 10000
+
     @staticmethod
     def check_option_values(options: OptionsContainer) -> None:
         """
@@ -162,6 +166,14 @@ class RequestHandlerBase(MethodView):
             # or a time (date and time, or time of day)
             if not isinstance(pos, (int, datetime.datetime, datetime.time)):
                 raise ValueError(f'Invalid error position: "{pos}"')
+        for name in options.eventTypes:
+            if name not in EventFactory.EVENT_TYPES:
+                # unknown event names are ignored by the EventFactory
+                continue
+            ev_opts = options[name]
+            # the number of events in a manifest is controlled by this value
+            if ev_opts.count > RequestHandlerBase.MAX_EVENT_COUNT:
+                raise ValueError(f'{name} count {ev_opts.count} is too large')
         for name in ['clockDrift', 'leeway', 'minimumUpdatePeriod',
                      'timeShiftBufferDepth']:
             value = getattr(options, name)
